@@ -23,7 +23,8 @@ REQUIRE = {"calls-on-a-definition-used-before": 20000, "definitions-used-before-
 KINDS = ["QUBIT", "REGISTER", "INT", "FLOAT", "NONE"]
 VALUE_CLASSES = ["qubit", "register", "int", "intfloat", "float", "constI", "constFint", "constF", "pQ", "pR", "pI", "pF", "pN",
                  "inf", "nan", "hugefloat", "constFinf", "npint", "npfloat", "npintfloat", "zero", "zerofloat", "none",
-                 "constCint", "constCintf", "constCfrac", "fracint", "frac", "hugefracint", "hugefrac", "hugeint", "complex", "npcomplex"]
+                 "constCint", "constCintf", "constCfrac", "fracint", "frac", "hugefracint", "hugefrac", "hugeint", "complex", "npcomplex",
+                 "tupleq", "tuple1", "emptylist"]
 
 
 def make_values():
@@ -49,6 +50,8 @@ def make_values():
         "hugeint": 2 ** 1024,
         # numbers that are no real numbers
         "complex": 0.5 + 0j, "npcomplex": __import__("numpy").complex128(2),
+        # ONE argument that is a sequence: it is one argument (never the argument list), and no qubit, register or number
+        "tupleq": (reg[0], reg[2]), "tuple1": (5,), "emptylist": [],
         "npint": __import__("numpy").int64(3), "npfloat": __import__("numpy").float64(0.25), "npintfloat": __import__("numpy").float32(2.0),
     }
 
